@@ -343,7 +343,9 @@ namespace foonathan
                 if (auto remaining = std::size_t(block_end() - stack_.top()))
                 {
                     auto offset = detail::align_offset(stack_.top(), detail::max_alignment);
-                    if (offset < remaining)
+                    // only if at least one node fits, the free list cannot insert less
+                    if (offset < remaining
+                        && pool.usable_size(remaining - offset) >= pool.node_size())
                     {
                         detail::debug_fill(stack_.top(), offset, debug_magic::alignment_memory);
                         pool.insert(stack_.top() + offset, remaining - offset);
